@@ -1037,6 +1037,8 @@ pub fn run_scenario(scn: &Value) {
             );
         }
     }
+    // per-dispatch batch limit of channel / executor (1024 unless the scenario lowers it)
+    calloop::verif::set_batch_limit(scn["limit"].as_u64().unwrap_or(1024) as usize);
     let base = Instant::now();
     crate::trace::set_base(base);
     let mut progs = BTreeMap::new();
